@@ -141,6 +141,10 @@ def verify_one(args):
             else:
                 rec = dict(rec)
                 rec["cached"] = True
+            if os.environ.get("VERIF_SECOND_SOLVER") == "1" and rec["status"] == "proved" and rec["backend"] != "cvc5":
+                # thorough tier: an independent second opinion on every obligation z3 discharged (a disagreement would be a solver bug)
+                from pyvc.solve import second_opinion
+                rec["second_solver"] = second_opinion(smt2, timeout=float(os.environ.get("VERIF_SECOND_TIMEOUT_S", "10")))
             rec.update({"id": o.oid, "kind": o.kind, "line": o.line, "props": list(o.props)})
             return rec
 
